@@ -49,35 +49,39 @@ Example C06_example :
   match radmsg2buf md5 m [115] with Ok (Some (b, _)) => wf_packet b = true | _ => False end.
 Proof. vm_compute. repeat split. Qed.
 
-From RSP Require Import Crypt Rewrite Choose Proxy Slots_proofs Dup_proofs Reply_proofs Forward_proofs Wf_proofs.
+From RSP Require Import Crypt Rewrite Choose Proxy Slots_proofs Dup_proofs Reply_proofs Forward_proofs Wf_proofs Wfrw_proofs.
 
-(* through the handler (PARTIAL: configurations with no rewrite block on the request path): for every state,
-   received packet (>= 20 octets), oracle and allocation-failure pattern, whatever radsrv places in a server
-   table is a well-formed RADIUS packet (length field = octets, 20..4096, attributes tile), and a correctly
-   signed Accounting-Request when it is one.  msg_ok is established by the parser and kept by the TTL check,
-   the User-Name stage, CHAP-Challenge completion, User-Password re-encryption, the Message-Authenticator
-   placeholder and the TTL insertion (Proofs/Wf_proofs.v).  With rewrite blocks the same is evaluated on every
-   emitted packet of the correspondence run (the C06_emit specs), not proved. *)
+(* through the handlers, for every configuration whose rewrite blocks are well-formed (rw_wf: configured
+   add/supplement attributes of <= 253 octets, replacement texts made of octets), every state, every received
+   packet of >= 20 octets, every digest/regex oracle and every allocation-failure pattern:
+
+   - whatever radsrv places in a server table is a well-formed RADIUS packet (length field = octets, 20..4096,
+     attributes tile with lengths 2..255), and a correctly signed Accounting-Request when it is one;
+   - whatever replyh delivers is a well-formed packet carrying a Response Authenticator valid under the
+     receiving client's secret and ITS Request Authenticator, and - Access-Accept/Reject/Challenge, no TTL
+     insertion configured - a verifying Message-Authenticator as first attribute.
+
+   msg_ok is established by the parser and kept by every stage: rewrite blocks (remove, vendor remove, modify,
+   vendor modify, supplement, add), TTL check, User-Name rewrite/restoration, CHAP-Challenge completion,
+   User-Password / MS-MPPE / Tunnel-Password re-encryption, Message-Authenticator placeholder, TTL insertion
+   (Proofs/Wf_proofs.v, Proofs/Wfrw_proofs.v).  Not covered by theorems: locally generated replies (respond)
+   and the Message-Authenticator clause for forwarded Access-Requests. *)
 Theorem C06_forwarded_wf : forall md5, (forall x, length (md5 x) = 16%nat) -> (forall x, wf_bytes (md5 x) = true) ->
   forall rx cfg fs st h c now rnd s i b,
   In (OEnq s i b) (snd (radsrv md5 rx cfg fs st h c now rnd)) ->
-  cc_rwin (clconf_of cfg c) = None -> cc_rwuser (clconf_of cfg c) = None -> sc_rwout (srvconf_of cfg s) = None ->
+  rwo_wf (cc_rwin (clconf_of cfg c)) -> rwo_wf (sc_rwout (srvconf_of cfg s)) ->
+  match cc_rwuser (clconf_of cfg c) with Some m => wf_bytes (mod_repl m) = true | None => True end ->
   (forall r0, get_rq st h = Some r0 -> exists buf, rq_buf r0 = Some buf /\ wf_bytes buf = true /\ (20 <= length buf)%nat) ->
   wf_bytes rnd = true -> is_byte (o_addttl (cf_opt cfg)) = true -> is_byte (sc_addttl (srvconf_of cfg s)) = true -> i < 256 ->
   wf_packet b = true /\
   (nth 0 b 0 = Consts.RAD_Accounting_Request -> acct_request_auth_ok md5 b (sc_secret (srvconf_of cfg s)) = true).
-Proof. exact radsrv_emits_wf. Qed.
+Proof. exact radsrv_emits_wf_rw. Qed.
 Print Assumptions C06_forwarded_wf.
 
-(* the reply path (PARTIAL: configurations with no rewrite block on it): whatever replyh delivers is a well-formed
-   packet carrying a Response Authenticator valid under the receiving client's secret and ITS Request
-   Authenticator, and - Access-Accept/Reject/Challenge, no TTL insertion configured - a verifying
-   Message-Authenticator as first attribute.  msg_ok is kept by the TTL check, the MS-MPPE and Tunnel-Password
-   re-encryption loops, the User-Name restoration and the Message-Authenticator placeholder. *)
 Theorem C06_delivered_wf : forall md5, (forall x, length (md5 x) = 16%nat) -> (forall x, wf_bytes (md5 x) = true) ->
   forall rx cfg fs st s buf now rnd c p,
   In (OReply c p) (snd (replyh md5 rx cfg fs st s buf now rnd)) ->
-  sc_rwin (srvconf_of cfg s) = None -> cc_rwout (clconf_of cfg c) = None ->
+  rwo_wf (sc_rwin (srvconf_of cfg s)) -> rwo_wf (cc_rwout (clconf_of cfg c)) ->
   wf_bytes buf = true -> (20 <= length buf)%nat -> wf_bytes rnd = true ->
   (forall h r, slot_of st s (nth 1 buf 0) = Some h -> get_rq st h = Some r ->
      rq_replybuf r = None /\
@@ -89,5 +93,5 @@ Theorem C06_delivered_wf : forall md5, (forall x, length (md5 x) = 16%nat) -> (f
     response_auth_ok md5 p (rq_rqauth r) (cc_secret (clconf_of cfg c)) = true /\
     (o_addttl (cf_opt cfg) = 0 -> cc_addttl (clconf_of cfg c) = 0 -> reply_code (nth 0 p 0) = true ->
      first_is_msgauth p = true /\ all_msgauth_ok md5 p (Some (rq_rqauth r)) (cc_secret (clconf_of cfg c)) = true).
-Proof. exact replyh_emits_wf. Qed.
+Proof. exact replyh_emits_wf_rw. Qed.
 Print Assumptions C06_delivered_wf.
